@@ -101,7 +101,7 @@ def binding_self_test(sc, trace_file):
             qtr = tr
         if ttr is None and '"kind":"task"' in tr[0]:
             for i, ln in enumerate(tr):
-                if ln.startswith('{"err":"","ev":"HistRet"') and len(json.loads(ln)["qs"]) >= 2:
+                if '"ev":"HistRet"' in ln and json.loads(ln).get("err") == "" and len(json.loads(ln)["qs"]) >= 2:
                     ttr = tr[:i + 1]
                     break
         if qtr and ttr:
